@@ -20,9 +20,12 @@
     alignT_denote                        lazy Align / Align.align / Contraction.align: identity on the denoted function
     alignT_keyset / alignT_keys_full     ... keep the set of inputs; with all names given, .inputs order = names exactly
     alignT_partial_lazy                  partial names on a lazy non-tensor term: wrapper dropped, order unchanged
+    align_keeps_domain / reorderByName_keeps_domain / reorderByPosition_witness   re-ordering keeps name -> domain
+    align_classes_covered                obligation over Gen/C19Align.lean (classes defining `align`, from source)
     deltaAlign_perm / deltaAlign_keys    Delta.align only reorders the terms, into exactly the order `names`
 -/
 import FunsorVerif.Model.C19
+import FunsorVerif.Gen.C19Align
 namespace FV.Props.C19
 open FV.C19
 variable {α : Type}
@@ -3411,6 +3414,115 @@ theorem alignT_partial_lazy (u : LTerm α) (names : List String)
   rcases hu with ⟨n, s, rfl⟩ | ⟨op, l, r, rfl⟩ <;>
     simp [LTerm.alignT, funsorAlign, mkAlign, hnk, hss, hall, hemp]
 
+
+/-! ### re-ordering an OrderedDict of (name, domain) keeps each name's domain -/
+
+theorem lookup_oset (k' : String) (v : Nat) (k : String) : ∀ (d : Inputs),
+    lookup k (oset d k' v) = if k' = k then some v else lookup k d
+  | [] => by simp [oset, lookup]
+  | (a, b) :: d => by
+      simp only [oset]
+      by_cases ha : a = k'
+      · subst ha
+        simp only [if_true, lookup]
+        by_cases hak : a = k <;> simp [hak]
+      · simp only [ha, if_false, lookup, lookup_oset k' v k d]
+        by_cases hak : a = k
+        · subst hak
+          have : ¬ k' = a := fun e => ha e.symm
+          simp [this]
+        · simp [hak]
+
+/-- `d.update(e)`: `e`'s entries win, the others are `d`'s. -/
+theorem lookup_oupdate (k : String) : ∀ (e d : Inputs), (e.map (·.1)).Nodup →
+    lookup k (oupdate d e) = match lookup k e with | some v => some v | none => lookup k d
+  | [], d, _ => by simp [oupdate, lookup]
+  | (k', v) :: e, d, he => by
+      simp only [List.map_cons, List.nodup_cons] at he
+      have hstep : oupdate d ((k', v) :: e) = oupdate (oset d k' v) e := by simp [oupdate]
+      rw [hstep, lookup_oupdate k e _ he.2, lookup_oset]
+      simp only [lookup]
+      by_cases hk : k' = k
+      · subst hk
+        simp [lookup_none_of_not_mem k' e he.1]
+      · simp [hk]
+
+/-- **align_keeps_domain.**  The inputs `Tensor.align` / `Align` / `Gaussian.align` build —
+    `OrderedDict((n, inputs[n]) for n in names)` updated with `inputs` — map every name to the
+    domain it had before: re-ordering by names never moves a domain to another name. -/
+theorem align_keeps_domain (I : Inputs) (names : List String) (hI : (I.map (·.1)).Nodup)
+    (hsub : ∀ n ∈ names, n ∈ I.map (·.1)) (k : String) :
+    lookup k (oupdate (fromPairs (names.filterMap fun n => (lookup n I).map fun s => (n, s))) I)
+      = lookup k I := by
+  rw [lookup_oupdate k I _ hI]
+  cases hk : lookup k I with
+  | some v => rfl
+  | none =>
+    simp only
+    apply lookup_none_of_not_mem
+    intro hmem
+    have := (mem_keys_oupdate _ [] k).mp hmem
+    simp only [List.map_nil, List.not_mem_nil, false_or] at this
+    rw [(namePairs_spec I names hsub).1] at this
+    obtain ⟨v, hv⟩ := lookup_of_mem_keys k I (hsub k this)
+    rw [hv] at hk; cases hk
+
+/-- `Constant.align`'s re-ordered const inputs: `OrderedDict((n, inputs[n]) for n in const_names)`. -/
+def reorderByName (I : Inputs) (names : List String) : Inputs :=
+  names.filterMap fun n => (lookup n I).map fun s => (n, s)
+
+/-- The mutant: new NAME order zipped with the OLD domain order. -/
+def reorderByPosition (I : Inputs) (names : List String) : Inputs := names.zip (I.map (·.2))
+
+/-- **reorderByName_keeps_domain.**  Looking a name up after the re-ordering gives its old domain. -/
+theorem reorderByName_keeps_domain (I : Inputs) : ∀ (names : List String), names.Nodup →
+    ∀ k ∈ names, lookup k (reorderByName I names) = lookup k I
+  | [], _, k, hk => by simp at hk
+  | n :: names, hn, k, hk => by
+      simp only [List.nodup_cons] at hn
+      simp only [reorderByName, List.filterMap_cons]
+      by_cases hnk : n = k
+      · subst hnk
+        cases hl : lookup n I with
+        | some v => simp [lookup]
+        | none =>
+          simp only [Option.map_none]
+          apply lookup_none_of_not_mem
+          simp only [List.mem_map, List.mem_filterMap]
+          rintro ⟨p, ⟨m, hm, hp⟩, rfl⟩
+          cases hlm : lookup m I with
+          | none => simp [hlm] at hp
+          | some s => simp only [hlm, Option.map_some, Option.some.injEq] at hp; subst hp; exact hn.1 hm
+      · have hk' : k ∈ names := by
+          simp only [List.mem_cons] at hk
+          rcases hk with rfl | hk
+          · exact absurd rfl hnk
+          · exact hk
+        have ih := reorderByName_keeps_domain I names hn.2 k hk'
+        simp only [reorderByName] at ih
+        cases hl : lookup n I with
+        | some v => simp only [Option.map_some, lookup, hnk, if_false]; exact ih
+        | none => simp only [Option.map_none]; exact ih
+
+/-- **reorderByPosition_witness.**  Zipping by position gives `b` the domain `a` used to have
+    (the seeded `Constant.align` defect): the order is right, the domain is wrong. -/
+theorem reorderByPosition_witness :
+    (reorderByPosition [("a", 2), ("b", 4), ("c", 3)] ["b", "a", "c"]).map (·.1) = ["b", "a", "c"] ∧
+    lookup "b" (reorderByPosition [("a", 2), ("b", 4), ("c", 3)] ["b", "a", "c"]) = some 2 ∧
+    lookup "b" (reorderByName [("a", 2), ("b", 4), ("c", 3)] ["b", "a", "c"]) = some 4 := by decide
+
+
+/-! ### obligation over the generated table: every class with its own `align` is covered -/
+
+/-- Classes whose `align` has a dedicated correspondence stream (fv/harness/c19.py CLASS_STREAMS)
+    and a statement above (`align_sem`, `alignT_*`, `deltaAlign_*`, `reorderByName_keeps_domain`;
+    Gaussian's data movement is C12's `align` theorem, its inputs are `align_keeps_domain`). -/
+def coveredAlignClasses : List String :=
+  ["Funsor", "Align", "Tensor", "Contraction", "Delta", "Constant", "Gaussian"]
+
+/-- Fails closed: a new class defining `align` in /repo breaks this until it gets a stream. -/
+theorem align_classes_covered :
+    ∀ c ∈ FV.Gen.C19Align.alignClasses, c ∈ coveredAlignClasses := by decide
 
 /-- `output=None`: the event shape is inferred from the leftmost key of `dim_to_name`, after which
     the conversion is the one with that explicit output (so all theorems above apply to it). -/
